@@ -87,6 +87,12 @@ def check(repo: Repo, run: Run) -> None:
                    + (" although the code table names it" if has_code else ""),
                    facts={"twin": e.key, "handler": e.func_name, "base_in_code_table": has_code}, line=e.lineno)
             continue
+        if e.opaque or base.opaque:
+            # the registry values are computed (a closure from a factory, a helper such as nocancel(handle_x)): that the twin
+            # is "the same logic with no_cancel set" is then decided on what the two entries render (R4), not on their spelling
+            run.ob("R3", e.module.name, "handlers", base_key, True, facts={"twin": e.key, "decided_by": "R4 (computed registry value)"},
+                   nontrivial=False, line=e.lineno)
+            continue
         same_fn = base.func is e.func
         run.ob("R3", e.module.name, "handlers", base_key, same_fn,
                "" if same_fn else f"{e.key!r} -> {e.func_name} but {base_key!r} -> {base.func_name}: not the same logic",
